@@ -1,0 +1,62 @@
+//go:build verif
+
+// Contracts for package notify, checked by /verif/engine (govc).
+// This file contains comments only; it never changes the compiled package.
+
+package notify
+
+/*@
+
+// ================================================================ the offset notifier (C18), per call
+// Ghost state of channels (engine): chClosed(c), chFull(c) (capacity-1 buffer occupied), chVal(c) (the buffered
+// value of a channel of channels), chCap(c).
+//
+// Between calls the barrier holds exactly one token - the CURRENT broadcast channel, open - unless the
+// notifier was closed; waiters park on the broadcast channel that was current when they probed.
+pred notifyWf(w *Offset) :=
+    w != nil && w.barrier != nil && chCap(w.barrier) == 1
+    && (!chClosed(w.barrier) ==> chFull(w.barrier) && allocated(chVal(w.barrier)) && chVal(w.barrier) != nil && chVal(w.barrier) != w.barrier && !chClosed(chVal(w.barrier)) && !chFull(chVal(w.barrier)))
+    && (chClosed(w.barrier) ==> !chFull(w.barrier))
+
+func NewOffset
+    flags noframe
+    ensures[new] ret0 != nil && fresh(ret0) && notifyWf(ret0) && ret0.nextOffset == nextOffset && !chClosed(ret0.barrier)
+
+func (*Offset).Set
+    flags noframe
+    requires notifyWf(w)
+    ensures[wf]       notifyWf(w)
+    // monotone update: NextOffset only moves forward
+    ensures[monotone] !old(chClosed(w.barrier)) ==> w.nextOffset == max(old(w.nextOffset), nextOffset)
+    // every Set broadcasts: the channel the current waiters are parked on is closed, and a fresh open one replaces it
+    ensures[wakes]    !old(chClosed(w.barrier)) ==> chClosed(old(chVal(w.barrier))) && chVal(w.barrier) != old(chVal(w.barrier)) && !chClosed(w.barrier)
+    // after Close nothing happens any more
+    ensures[closed]   old(chClosed(w.barrier)) ==> w.nextOffset == old(w.nextOffset) && chClosed(w.barrier)
+
+func (*Offset).Close
+    flags noframe
+    requires notifyWf(w)
+    ensures[wf]       notifyWf(w)
+    // Close wakes the current waiters and closes the notifier; a second Close reports it
+    ensures[closes]   !old(chClosed(w.barrier)) ==> err == nil && chClosed(w.barrier) && chClosed(old(chVal(w.barrier)))
+    ensures[twice]    old(chClosed(w.barrier)) ==> err == ErrOffsetNotifyClosed
+    ensures[offset]   w.nextOffset == old(w.nextOffset)
+
+func (*Offset).Wait
+    flags noframe
+    requires notifyWf(w)
+    ensures[wf]        notifyWf(w)
+    // an offset below NextOffset never waits ...
+    ensures[immediate] old(w.nextOffset) > offset ==> err == nil
+    assert[parks_beyond]  w.nextOffset <= offset && old(w.nextOffset) <= offset at select 1
+    // ... at or beyond it the waiter parks on the broadcast channel that was current when it probed, with the token back in place
+    assert[parks_current] b == old(chVal(w.barrier)) && chFull(w.barrier) && chVal(w.barrier) == b && !old(chClosed(w.barrier)) at select 1
+    // a wait at or beyond NextOffset on a closed notifier fails
+    ensures[closed]    old(chClosed(w.barrier)) && old(w.nextOffset) <= offset ==> err == ErrOffsetNotifyClosed
+    // it never returns for nothing: without error only when the offset is below NextOffset or its broadcast channel was closed (a Set or Close happened)
+    ensures[woken]     err == nil ==> old(w.nextOffset) > offset || chClosed(old(chVal(w.barrier)))
+    // the only other outcomes are the closed notifier and the context's error
+    ensures[errors]    err != nil ==> err == ErrOffsetNotifyClosed || ioerr(err)
+    ensures[offset]    w.nextOffset == old(w.nextOffset)
+
+@*/
